@@ -70,6 +70,7 @@ type Walker struct {
 	RangeCap   int                    // loops over collections of symbolic size are explored for 0..RangeCap elements, then assumed to end
 	Assume     map[string]IntervalSet // initial regions of symbolic integers (e.g. one struct field per walk)
 	AssumeBool map[string]bool
+	AssumeFn   func(key string) (IntervalSet, bool) // regions of symbolic integers given by a rule (by rendering)
 	// hooks
 	CallName func(callee *ssa.Function, name string) (string, bool, bool)
 	OnRecv   func(w *Walker, ch *Term, t types.Type, id int) (*Term, bool)
@@ -88,6 +89,7 @@ type Walker struct {
 	freshN    map[string]int
 	symCells  map[string]*Cell
 	symIdx    map[string]*Term // symbolic index selectors ("#b") -> the index term
+	RTypes    map[string]types.Type // renderings of type descriptors met as table keys -> the Go type
 	InitPkg   *ssa.Package     // set while evaluating a package initialiser: its variables are concrete cells
 	defers    [][]deferred
 	aborted   string
@@ -1062,6 +1064,11 @@ func (w *Walker) step(fr *frame, in ssa.Instruction) {
 			args = append(append([]*Term{}, clos.Args...), args...)
 			clos = nil
 		}
+		if f := x.Call.StaticCallee(); f != nil && clos == nil {
+			if n2, a2, ok := w.lockerCanon(f, args); ok {
+				name, args = n2, a2
+			}
+		}
 		w.event(Event{Kind: "defer", Name: name, Args: args, Result: clos, Pos: x.Pos(), Instr: x, Fn: fn, Depth: depth})
 		w.defers[len(w.defers)-1] = append(w.defers[len(w.defers)-1], deferred{name: name, args: args, call: &x.Call, pos: x.Pos(), inst: x, clos: clos, fn: fn})
 	case *ssa.RunDefers:
@@ -1475,6 +1482,15 @@ func (w *Walker) call(fr *frame, c *ssa.CallCommon, in ssa.Instruction, rt types
 	if strings.HasPrefix(name, "builtin:") {
 		return w.builtin(strings.TrimPrefix(name, "builtin:"), args, in, rt, fn, depth)
 	}
+	// a verified hand-written lock (userlock.go) is rendered as the mutex it is
+	if f := c.StaticCallee(); f != nil {
+		if n2, a2, ok := w.lockerCanon(f, args); ok {
+			t := &Term{Op: "call", Name: n2, Args: a2, Typ: rt, Pos: in.Pos()}
+			t.ID = w.fresh("call:" + n2)
+			w.event(Event{Kind: "call", Name: n2, Args: a2, Result: t, Pos: in.Pos(), Instr: in, Fn: fn, Depth: depth})
+			return t
+		}
+	}
 	// an interface method called on a value whose dynamic type is known on this path (a strategy object built a
 	// few lines earlier): the call is the call of that type's method
 	if c.IsInvoke() && len(args) > 0 && args[0].Op == "iface" && args[0].Dyn != nil && w.Inline != nil && depth < w.MaxDepth {
@@ -1519,6 +1535,18 @@ func (w *Walker) call(fr *frame, c *ssa.CallCommon, in ssa.Instruction, rt types
 	}
 	if t := w.reflectModel(name, callee, args, rt); t != nil {
 		return t
+	}
+	if t := w.contextModel(name, args, rt, in, fn, depth); t != nil {
+		return t
+	}
+	// Dialer.DialContext(ctx, network, address) with a context of known deadline is Dial bounded by that instant
+	if name == "(*net.Dialer).DialContext" && len(args) == 4 && args[1].Op == "ctx" && args[0].Op == "ptr" && args[0].Cell != nil && len(args[0].Path) == 0 {
+		cur := project(args[0].Cell.Val, "Deadline")
+		if cur.Op == "zero" {
+			args[0].Cell.Val = update(args[0].Cell.Val, []string{"Deadline"}, args[1].Args[0])
+		}
+		name = "(*net.Dialer).Dial"
+		args = []*Term{args[0], args[2], args[3]}
 	}
 	if t := w.textModel(name, args, rt); t != nil {
 		return t
@@ -2184,9 +2212,19 @@ func (w *Walker) decideIntConst(a *Term, op token.Token, n int64) bool {
 			w.logDecision(fmt.Sprintf("%s%s%d=%v", a.String(), op, n, res))
 			return res
 		}
+		if decided, res := w.finiteSplit2(a, op, n); decided {
+			return res
+		}
 	}
 	key := a.String()
 	cur, ok := w.state.Ints[key]
+	if !ok && w.AssumeFn != nil {
+		if r, has := w.AssumeFn(key); has {
+			cur, ok = r, true
+			w.state.Ints[key] = r
+			w.state.IntT[key] = a
+		}
+	}
 	if !ok {
 		cur = fullSet(a.Typ)
 		if a.Op == "len" {
